@@ -706,7 +706,7 @@ let run_abuf toks =
     Stdlib.Buffer.contents buf
   | _ -> failwith "bad abuf case"
 
-(* fp <device bytes> F<i>,<i>,... (E<id>,<blocks> | X)*  (Model.FailPath) -> one result per flush, joined by " | " *)
+(* fp <device bytes> F<i>,<i>,... (E<id>,<blocks> | R<id> | X)*  (Model.FailPath, with deletions) -> one result per flush, joined by " | " *)
 let run_fp toks =
   match toks with
   | dev :: faults :: ops ->
@@ -714,22 +714,24 @@ let run_fp toks =
     let body = Stdlib.String.sub faults 1 (Stdlib.String.length faults - 1) in
     let failing = Stdlib.List.map Z.of_string (Stdlib.List.filter (fun x -> x <> "") (Stdlib.String.split_on_char ',' body)) in
     let fault i = Stdlib.List.exists (fun z -> Z.equal z (z_of_n i)) failing in
-    let st = ref (FailPath.finit fs0) in
+    let rs = ref (FailPath.rinit fs0) in
     let outs = ref [] in
     Stdlib.List.iter (fun t ->
         if t = "X" then begin
-          let (st', r) = FailPath.flush fault !st in
-          st := st';
-          let rs = match r with FailPath.ROk -> "ok" | FailPath.RIo -> "io" | FailPath.RIndet -> "indet" | FailPath.RSpace -> "space" in
-          let f = !st.FailPath.f_fs in
-          let durable = Stdlib.List.sort compare (Stdlib.List.map (fun (id, (s, _)) -> string_of_n id ^ ":" ^ string_of_n s) !st.FailPath.f_durable) in
-          outs := Stdlib.Printf.sprintf "r=%s free=%s,%s,%s usage=%s durable=%s calls=%s" rs
+          let (rs', r) = FailPath.rflush fault !rs in
+          rs := rs';
+          let st = !rs.FailPath.r_core in
+          let rstr = match r with FailPath.ROk -> "ok" | FailPath.RIo -> "io" | FailPath.RIndet -> "indet" | FailPath.RSpace -> "space" in
+          let f = st.FailPath.f_fs in
+          let durable = Stdlib.List.sort compare (Stdlib.List.map (fun (id, (s, _)) -> string_of_n id ^ ":" ^ string_of_n s) st.FailPath.f_durable) in
+          outs := Stdlib.Printf.sprintf "r=%s free=%s,%s,%s usage=%s durable=%s calls=%s" rstr
               (string_of_n (FreeSpace.get_total_free f)) (string_of_n (FreeSpace.get_chunks f)) (string_of_n (FreeSpace.get_largest f))
-              (string_of_n !st.FailPath.f_usage) (Stdlib.String.concat "," durable) (string_of_n !st.FailPath.f_calls) :: !outs
+              (string_of_n st.FailPath.f_usage) (Stdlib.String.concat "," durable) (string_of_n st.FailPath.f_calls) :: !outs
         end else begin
           let body = Stdlib.String.sub t 1 (Stdlib.String.length t - 1) in
-          match Stdlib.String.split_on_char ',' body with
-          | [id; blocks] -> st := FailPath.enqueue !st (n_of_string id) (n_of_string blocks)
+          match t.[0], Stdlib.String.split_on_char ',' body with
+          | 'E', [id; blocks] -> rs := FailPath.renqueue !rs (n_of_string id) (n_of_string blocks)
+          | 'R', [id] -> rs := FailPath.rdelete !rs (n_of_string id)
           | _ -> failwith ("bad failpath op " ^ t)
         end) ops;
     Stdlib.String.concat " | " (Stdlib.List.rev !outs)
